@@ -124,7 +124,7 @@ func execC08(c C08Case) *Failure {
 			}
 			plan["request:tools/call"] = acts
 		}
-		cfg := mcp.StdioTransportConfig{ServerParams: ChildCommand(ChildSpec{Role: "fake", Log: filepath.Join(dir, "log"), Plan: plan}), Timeout: 4 * time.Second}
+		cfg := mcp.StdioTransportConfig{ServerParams: ChildCommand(ChildSpec{Role: "fake", Log: filepath.Join(dir, "log"), Plan: plan}), Timeout: LongWait()}
 		sc, err := mcp.NewStdioClient(cfg, mcp.Implementation{Name: "c", Version: "1"}, mcp.WithStdioLogger(nopLogger{}))
 		if err != nil {
 			return Failf("C08/new-client", "%v", err)
